@@ -33,7 +33,7 @@ Fails(e) ==
   IN IF ~gj THEN (IF allok /\ e.compiled THEN ProbeFails(e, r.t) ELSE {})     \* verdict not judged; what compiled is still probed
      ELSE IF allok # e.compiled THEN (IF e.mi = 1 THEN {F(e, "compile", IF allok THEN "ok" ELSE "refuse", why, 0, << >>)} ELSE {})
      ELSE IF ~allok THEN {}
-     ELSE (IF d.has # e.hasDef \/ (d.has /\ d.v # e.def) THEN {F(e, "default", "ok", IF d.has THEN "inherited-default" ELSE "no-default", 0, d.v)} ELSE {})
+     ELSE (IF DefaultJudged(e.chain) /\ (d.has # e.hasDef \/ (d.has /\ d.v # e.def)) THEN {F(e, "default", "ok", IF d.has THEN "inherited-default" ELSE "no-default", 0, d.v)} ELSE {})
           \cup ProbeFails(e, r.t)
 TInit == l = 1 /\ nfail = 0
 TNext == /\ l <= Len(Trace) /\ l' = l + 1
